@@ -65,7 +65,8 @@ class Matcher:
             raise Skip('source order of the arguments of a rebuilt call is unknown')
         return sorted(xs, key=_kpos)
 
-    def __init__(self, root_fst, pure, pat, range_fill=False):
+    def __init__(self, root_fst, pure, pat, range_fill=False, ctx=False):
+        self.ctx = ctx
         self.range_fill = range_fill
         self.noncontig = False
         self.pat = pat
@@ -89,7 +90,7 @@ class Matcher:
                 raise Skip('cannot rebuild intermediate node: ' + type(e).__name__)
         if isinstance(node, (ast.expr_context, ast.operator, ast.unaryop, ast.boolop, ast.cmpop)):
             return None
-        m = f.match(self.pat)
+        m = f.match(self.pat, ctx=self.ctx)
         if m is None:
             return None
         return self.captures(f, m, node)
@@ -367,13 +368,13 @@ class Ref:
         return r, False
 
 
-def reference(root_fst, src, pat, tmpl_src, cat, nested, count, loop, on, quirk=False, range_fill=False, info=None):
+def reference(root_fst, src, pat, tmpl_src, cat, nested, count, loop, on, quirk=False, range_fill=False, info=None, ctx=False):
     """-> (pure result Module, unique, total, set of ids of untouched top-level statements' sources)"""
     pure = ast.parse(src)
     tkind, tmpl = parse_template(tmpl_src, cat)
     if cat == 'expr' and tkind != 'expr':
         raise Skip('template kind')
-    mt = Matcher(root_fst, pure, pat, range_fill)
+    mt = Matcher(root_fst, pure, pat, range_fill, ctx)
     if info is not None:
         info['matcher'] = mt
     ref = Ref(mt, tkind, tmpl, nested, count, loop, on, quirk)
